@@ -5,7 +5,11 @@ set -e
 cd "$(dirname "$0")"
 export CARGO_NET_OFFLINE=true
 python3 tools/extract.py > /dev/null
-(cd lean && lake build 2>&1 | tail -5)
+# model, drivers and all property theorems in one parallel build (~2 min from clean on 16 cores)
+(cd lean && lake build BigDec drv BigDec.Props.C01 BigDec.Props.C02 BigDec.Props.C03 BigDec.Props.C04 BigDec.Props.C05 \
+   BigDec.Props.C06 BigDec.Props.C07 BigDec.Props.C08 BigDec.Props.C09 BigDec.Props.C10 BigDec.Props.C11 BigDec.Props.C12 \
+   BigDec.Props.C13 BigDec.Props.C14 BigDec.Props.C15 BigDec.Props.C16 BigDec.Props.C17 BigDec.Props.C18 BigDec.Props.C19 \
+   BigDec.Props.C20 2>&1 | tail -5)
 [ -f harness/Cargo.lock ] || cp /repo/Cargo.lock harness/Cargo.lock
 (cd harness && cargo build --release --offline 2>&1 | tail -3)
 echo "setup done"
